@@ -5,82 +5,82 @@ package main
 func init() {
 	props["C01"] = &propSpec{
 		Rules:      []string{"C01-a", "C01-b", "C01-e", "C01-f"},
-		Decides:    "structural necessary conditions of 'no row is dropped, truncated or altered': no storage/sorter/ingest error is dropped (C01-a); 16-bit lengths/offsets in the row codec are bounded before narrowing (C01-b); worker-shared accumulation of blocks and row count is synchronised (C16-a).",
+		Decides:    "Decides, on every path of every production function, structural necessary conditions of 'no row is dropped, truncated or altered': no error from the sorter / ingest / object store / on-disk index is dropped. It does not decide equality of stored and input rows (value-dependent); level 'other' because it is exhaustive over code paths but establishes a necessary condition only. Also decided: the workers' blocks are sorted by offset on every path before the table's block list is built, and the ingest CSV reader is configured only with loss-free options.",
 		NotDecided: "equality of the stored row set with the input row set, key order, de-duplication correctness, export fidelity (value-dependent).",
 	}
 	props["C06"] = &propSpec{
 		Rules:      []string{"C06-a", "C06-b", "C06-c", "C06-d"},
-		Decides:    "content addressing: every content-addressed store uses the hash of the bytes it was given, and callers of SaveCompressedBlock pass matching content/compressed pairs (C06-a); raw store mutations only from pkg/objects (C06-b); 16-bit string lengths are bounded by ≤ 65535 before narrowing and over-limit values are rejected by an error (C06-c); writer and reader label tables agree (C06-d).",
+		Decides:    "Decides structural necessary conditions of 'objects round-trip and are stored under their hash': every content-addressed store in pkg/objects uses meow.Checksum of a parameter as key and stores that parameter, its s2 encoding, or (SaveCompressedBlock) a second parameter that every caller pairs with its decompression; raw Store.Set/Delete/Clear only inside pkg/objects; every uint16(len(.)) in the labelled-field and row encoders is dominated by a len <= 65535 test whose failing edge returns an error; the ordered label lists of each object's writer and reader agree. Does not decide decode(encode(x)) = x nor the varint header arithmetic.",
 		NotDecided: "decode(encode(x)) = x for all x; the packfile varint header arithmetic.",
 	}
 	props["C07"] = &propSpec{
 		Rules:      []string{"C07-a", "C07-b", "C07-c", "C07-d", "C07-f", "C06-a", "C13-a", "C13-h"},
-		Decides:    "the receiver's validation and ordering mechanisms: blocks validated before being stored (C07-a), no commit stored while a parent is missing (C07-b), rebuilt block indices compared with the table's recorded sums (C07-c), sender pushes blocks before table before commit (C07-d), blocks stored under the hash of the decoded content (C07-e).",
+		Decides:    "Decides the receiver's validation/ordering mechanisms and the sender's queue order on every path: received blocks are stored only after ValidateBlockBytes succeeded on the same buffer and under the hash of the decompressed bytes; a commit is stored only after every parent was found; rebuilt block-index sums are compared with the table's recorded sums before the table index is written; the sender appends blocks before their table and the commit after its table. Does not decide byte identity of the two stores or packfile splitting. Also decided: the sender passes the enqueue-next-commit step before leaving WriteObjects; the receiver writes the table object last and never skips its index.",
 		NotDecided: "byte identity of source and destination stores; packfile splitting arithmetic.",
 	}
 	props["C13"] = &propSpec{
 		Rules:      []string{"C13-a", "C13-b", "C13-c", "C13-g", "C13-h", "C13-i", "C07-b", "C09-a", "C09-g", "C12-e", "C15-c"},
-		Decides:    "write-order necessary conditions of crash consistency on every path: the table object is written after its derived indices (C13-a), after the worker join (C13-b); refs are written with a sum that is data-dependent on SaveCommit (C13-c); fetch saves refs after objects (C09-a); prune deletes commits last (C12-e); no commit before its parents (C07-b); SQL multi-statement writes run in one transaction (C13-g).",
+		Decides:    "Decides write-order necessary conditions of crash consistency on every path: no derived-index write after the table object (the table object is the commit point); the table is written only after the worker join and an empty error channel; every ref written by a function that saves a commit carries the sum returned by SaveCommit and lies behind its success edge; SQL multi-statement writes run on one *sql.Tx which commits only on success; plus the shared ordering rules of C07-b (no commit before its parents), C09-a (fetch refs after objects) and C12-e (prune deletes commits last). Does not enumerate crash points, does not decide repeatability; store atomicity is trusted. Also decided: SaveTable happens only after a successful table-index write (never skipped); prune deletes a table object before its derived objects; every successful fetch return has saved the refs.",
 		NotDecided: "repeatability of the operation after a crash; effects of a crash inside a multi-branch pull; atomicity of the underlying stores (trusted).",
 	}
 	props["C10"] = &propSpec{
 		Rules:      []string{"C10-a", "C10-b", "C10-c", "C10-d", "C10-e", "C10-f"},
-		Decides:    "every ref-update site in fetch and push is reachable only through a fast-forward, force, new-ref or delete permit (C10-a); existing tags additionally need force (C10-b); ref writes go through the logging API only (C10-c); the reflog's old value is read inside the same SQL transaction (C10-d); merge writes refs only after the merge base was computed (C10-e, weak).",
+		Decides:    "Decides that every ref-update site in fetch and push is unreachable once the fast-forward / force / new-ref / delete permit edges are removed, that existing tags additionally need a force permit, that unlogged ref writes are confined to tags and transaction refs, that the reflog's old value is read inside the SQL transaction that updates the ref, and that merge writes refs only after the merge base was computed. Does not decide IsAncestorOf's correctness (C11), merge's fast-forward condition, pull's new-branch detection or the remote side of push. Also decided: force permits are tests of the flag itself (not of a loop-carried accumulation); the fast-forward ref write takes the single input that differs from the merge base.",
 		NotDecided: "that IsAncestorOf answers correctly (C11); merge's fast-forward condition (control-dependent on SeekCommonAncestor); pull's new-branch detection; the remote side of push.",
 	}
 	props["C09"] = &propSpec{
-		Rules:      []string{"C09-a", "C09-b", "C09-c", "C09-e", "C09-f", "C09-g", "C10-c"},
-		Decides:    "ordering/completion mechanisms of fetch and push: refs saved only after objects were fetched successfully (C09-a); the upload-pack session ends only when the receiver reports all expected commits (C09-b); a push session is created only after the shallow-commit check (C09-c); ref writes go through pkg/ref's logging API (C10-c).",
+		Rules:      []string{"C09-a", "C09-b", "C09-c", "C09-e", "C09-f", "C09-g", "C10-c", "C08-c"},
+		Decides:    "Decides ordering/completion mechanisms: fetched refs are saved only on the success edge of the object fetch; the upload-pack session returns its terminal state only on Receive's done==true edge; a push session is created only after the shallow-commit check; refs are written only through pkg/ref's logging API. Does not decide completeness of the transferred history or idempotence. Also decided: tables are acknowledged only under TableExist; the receiver is given the freshly computed wants; every successful return of Fetch has saved the refs.",
 		NotDecided: "completeness of the transferred history, object identity on both sides, idempotence of a repeated fetch/push.",
 	}
 	props["C12"] = &propSpec{
 		Rules:      []string{"C12-a", "C12-b", "C12-c", "C12-d", "C12-e", "C12-f", "C13-i"},
-		Decides:    "structural mechanisms of prune safety: roots are seeded from an unfiltered ref listing (C12-a); no ref/object-store error is dropped while marking (C12-b); every delete lies under a not-marked edge (C12-c); sort.Search hits are bounds- and equality-checked before marks are written (C12-d); commits are deleted last (C12-e).",
+		Decides:    "Decides structural mechanisms of prune safety on every path: roots come from an unfiltered ref listing; no ref/object-store error is dropped while marking; every delete lies under a not-marked edge of a []bool mark (commits: come from a list filled only under such an edge); every sort.Search hit is bounds-checked before use and equality-checked before a mark is written; commits are deleted in the last step. Does not decide that the marked set equals the reachable set (graph-valued). Also decided: configuration fields with a defaulting getter (transaction TTL) are read only through it; prune deletes the table object before its index and profile.",
 		NotDecided: "that the marked set equals the reachable set for every repository (graph-valued).",
 	}
 	props["C14"] = &propSpec{
 		Rules:      []string{"C14-a", "C14-b", "C14-c", "C13-g", "C10-d", "C15-c"},
-		Decides:    "typestate guard: Commit and Discard test the transaction's status before any mutation (C14-a); Commit's per-branch ref update is skipped for branches already logged under this transaction, so a failed commit can be completed by re-running without duplicating commits (C14-b); no branch mutation is reachable from Discard (C14-c).",
+		Decides:    "Decides that Commit and Discard test Transaction.Status before any ref/transaction mutation with an outcome that avoids the mutations; that Commit's per-branch ref update is reachable only through the not-yet-logged edge of a GetTransactionLogs lookup (re-run completes without duplicating commits); that no branch mutation is reachable from Discard. Does not decide the outcome of every crash point or the atomicity of a single run. Also decided: the already-moved lookup is keyed by the same ref name the update is logged under; the per-branch update runs as one SQL transaction that reads the old value itself.",
 		NotDecided: "the outcome of every crash point; log contents; atomicity of a single run (the per-branch loop is not one store transaction).",
 	}
 	props["C15"] = &propSpec{
 		Rules:      []string{"C15-a", "C13-g", "C10-d", "C15-c", "C15-d"},
-		Decides:    "the SQL ref store's text and transaction discipline: no pattern operator (LIKE/GLOB/…) in any query, so prefix listing is literal and case-sensitive (C15-a); multi-statement writes run on one *sql.Tx (C13-g); the reflog's old value is read in the same transaction (C10-d); rename/copy/delete change ref and log rows together (C15-c).",
+		Decides:    "Decides that no query of the SQL ref store uses LIKE/GLOB/REGEXP/MATCH (prefix listing is literal and case-sensitive for this code base, which opens SQLite without case_sensitive_like); that multi-statement writes run on one *sql.Tx and RunInTx commits only on success and rolls back otherwise; that the reflog's old value comes from a Scan in the same transaction; that rename/copy/delete change ref and log rows together. Does not decide sequence semantics against a map model; the file store is test-only and not analysed. Also decided: namespace prefixes handed to the store by pkg/ref provably end with '/'.",
 		NotDecided: "sequence semantics of the store against a map model; the file store (pkg/ref/fs is imported only by tests and is outside the production call graph).",
 	}
 	props["C16"] = &propSpec{
 		Rules:      []string{"C16-a", "C16-b", "C16-c", "C16-d", "C16-e", "C16-f"},
-		Decides:    "for goroutines started in several instances on shared operands, every write to the shared state is synchronised (C16-a); the concurrently read progress-tracker fields are accessed atomically (C16-b); the ingest pool's error channel has room for one error per worker and a worker sends at most once (C16-c); no error is dropped in goroutine bodies (C16-d).",
+		Decides:    "Decides that, for goroutines started in several instances on shared operands (go in a loop, or in a function called from a loop), every field/variable/map write reached from the shared operands is under a mutex reached from the same operands, inside sync.Once.Do, atomic or a channel operation; that SingleTracker's concurrently read counters are only accessed atomically; that the ingest pool's error channel is sized by the same value as its worker loop and a worker sends at most once; that no error is dropped in pipeline goroutines. Does not decide termination, deadlock freedom, equality with the sequential result or absence of every race. Also decided: workers read lock-guarded shared fields under the lock; no error send after closing the data channel; data channel fields are closed by their sender.",
 		NotDecided: "termination, deadlock freedom, equality with the sequential result, absence of every race (no may-happen-in-parallel analysis for main-vs-goroutine pairs).",
 	}
 	props["C18"] = &propSpec{
 		Rules:      []string{"C18-a"},
-		Decides:    "a sufficient shape for chunk-independence of what decoders see: no decoder calls Read once and assumes a full buffer (C18-a).",
+		Decides:    "Decides a sufficient shape for chunk-independence of the byte stream decoders see: in pkg/encoding/..., pkg/objects, pkg/api/client and pkg/api/utils every direct Read call is inside a delegating Read method or inside a loop that accumulates the byte count and consumes n before any successful exit; all other reads go through io.ReadFull/ReadAtLeast/ReadAll/Copy. Its negation is a defect for iotest.OneByteReader/DataErrReader-like transports. Does not decide equality of decoded sequences under every partition. An accumulating read loop may not exit on a plain iteration counter.",
 		NotDecided: "equality of the decoded object sequences under every partition of the stream (behavioural); readers handed to third-party decoders (gzip, json).",
 	}
 	props["C19"] = &propSpec{
 		Rules:      []string{"C19-a", "C19-b", "C19-d", "C19-e", "C01-a", "C01-b"},
-		Decides:    "structural necessary conditions of 'every distinct key once, in key order': position-wise row comparators are two-sided (C19-a); the key is extracted in the column layout its positions were computed for (C19-b); spill errors are not dropped and the row codec does not wrap (C01-a, C01-b); every spill file has a close+remove cleanup registered that Close runs (C19-d).",
+		Decides:    "Decides structural necessary conditions of 'every distinct key once, in key order': every loop that compares two rows position by position is two-sided (a '<' decision is paired with a '>'/'!=' test on the same operands before the next position); pre-removal key positions are never applied to a row after column removal; every spill file gets a close+remove cleanup that Close runs; spill errors are not dropped; the row codec does not wrap. Does not decide sortedness/de-duplication of the output for all multisets and memory limits. Also decided: fields set by AddRow/Close are re-armed by Reset.",
 		NotDecided: "sortedness and de-duplication of the output for all row multisets and memory limits (value-dependent).",
 	}
 	props["C17"] = &propSpec{
 		Rules:      []string{"C17-a", "C17-b", "C17-c", "C17-d", "C07-b"},
-		Decides:    "in the hostile-reachable set: no unbounded stream-decoded count sizes an allocation (C17-a); fixed-width reads from caller-supplied byte slices are length-guarded (C17-b); constant indices into decoded collections are length-guarded (C17-c); results that can be nil together with an error are not dereferenced before the error test (C17-d).",
+		Decides:    "Decides, over the functions reachable from the decoder entry points and ObjectReceiver.Receive, that no 32/64-bit count decoded from the stream sizes a make() without a sane bound on every path; that binary.BigEndian reads from caller-supplied slices in error-returning functions are behind a len() guard that relates the length to the read's offset and rejects with an error; that constant indices into decoded collections are behind a length test; that pointer results which can be nil together with an error are not dereferenced before the error test. Does not decide implicit index panics with non-constant indices, loop termination, or that nothing from a rejected packfile stays referenced. Also decided: Grow calls count as allocation sinks; a received commit is stored only after its parents were found.",
 		NotDecided: "implicit index panics with non-constant indices, loop termination, 'nothing from a rejected packfile is left referenced'.",
 	}
 	props["C05"] = &propSpec{
 		Rules:      []string{"C05-a", "C05-b", "C05-c"},
-		Decides:    "column-layout consistency of the merge result pipeline: rows and key positions that reach the result sorter are in the merged layout, never raw base-table rows or base key positions (C05-a).",
+		Decides:    "Decides column-layout consistency of the merge result pipeline: every row added to RowCollector.resolvedRows and every key-position vector stored into its PK comes from the merged layout (ColDiff.RearrangeRow/RearrangeBaseRow/PKIndices, Merge.ResolvedRow) and is never a row of a stored block or objects.Table.PK passed on unchanged. This is a necessary condition of 'rows untouched by every branch appear unchanged under their own column names wherever the key column sits'. Does not decide cell-wise resolution, conflict marking, commutativity, keyless tables or renamed columns. Two known findings (not repairable without editing a test that pins the defect). Also decided: every per-branch diff channel handed to mergeTables reports unchanged rows (DiffTables with WithEmitUnchangedRow), and merge commands return success only behind Merger.Error()==nil.",
 		NotDecided: "the cell-wise resolution rules, conflict marking, commutativity, keyless tables and renamed columns (value-dependent).",
 	}
 	props["C08"] = &propSpec{
-		Rules:      []string{"C08-a", "C08-b"},
-		Decides:    "one clause only: wants are accepted only after the reachability check succeeded (C08-a) and that check walks from an unfiltered ref listing (C08-b).",
+		Rules:      []string{"C08-a", "C08-b", "C08-c"},
+		Decides:    "Decides one clause of the property only: a caller-supplied hash is stored into the Wants map only after the reachability check (the function that builds *UnrecognizedWantsError) succeeded, and that check walks from an unfiltered listing of all refs. Closedness, parent-first order, minimality, depth selection and polynomial termination are statements about DAG values and are not decided. Level 'other', explicitly thin.",
 		NotDecided: "closedness, parent-first order, minimality, depth selection, polynomial termination — all statements about DAG values.",
 	}
 	props["C11"] = &propSpec{
 		Rules:      []string{"C11-a", "C11-b", "C11-c", "C11-d", "C11-e"},
-		Decides:    "'whatever the commit timestamps say' for the ancestor test: Commit.Time influences only the ordering of the frontier (C11-a); a negative answer is given only when the frontier is exhausted (C11-b); every parent is offered to the frontier (C11-c).",
+		Decides:    "Decides the 'whatever the commit timestamps say' clause for the ancestor test: in pkg/ref a value loaded from Commit.Time reaches a branch condition or return value only inside CommitsQueue.Less and the sort.Search predicate of Insert (frontier position); IsAncestorOf answers false only on the io.EOF edge of the pop and Pop yields io.EOF only on Len()==0; InsertParents offers every parent to the frontier. Does not decide SeekCommonAncestor's elimination logic or visit-exactly-once (graph-valued). Also decided: seen-set test and mark in CommitsQueue.Insert form one critical section; SeekCommonAncestor's 'not found' test uses a count accumulated within one round.",
 		NotDecided: "correctness of SeekCommonAncestor's lock-step elimination; visit-exactly-once (graph-valued).",
 	}
 }
